@@ -52,6 +52,7 @@ class ObjL:
 
 
 _OBJS = {}
+_NAN = float("nan")      # not ordered with anything: `not a < b` is not `a >= b`
 
 
 def hexs(s: str) -> str:
@@ -75,6 +76,8 @@ def pyval(tok: str):
         return int(body)
     if k == "f":
         return int(body) / 2
+    if k == "n":
+        return _NAN
     if k == "s":
         return unhexs(body)
     if k == "l":
@@ -438,6 +441,10 @@ def gen_scenario(rng, sid, p_malformed=0.15, max_depth=5, p_multi=0.3, allow_asy
             if en["kind"] == "callable":
                 where = "free"
             names[en["name"]] = [[where, en["kind"]]]
+            if en["kind"] == "prop" and where == "model" and rng.random() < 0.6:
+                # the machine (an earlier provider) has an unrelated property of the same name: the guard is the
+                # *model's* property object, the machine's must never be read
+                en["decoy"] = True
     malformed = None
     if rng.random() < p_malformed:
         exprs = [i for i, en in enumerate(entries) if en["kind"] == "expr"]
@@ -512,7 +519,7 @@ def gen_scenario(rng, sid, p_malformed=0.15, max_depth=5, p_multi=0.3, allow_asy
     lits = [t for t in lits if t]
     flavour = rng.choice(["mixed", "mixed", "numeric", "numeric", "str"])
     if flavour == "numeric":
-        tpool, fpool = [t for t in TRUTHY if t[0] in "Tif"], [t for t in FALSY if t[0] in "Fif"]
+        tpool, fpool = [t for t in TRUTHY if t[0] in "Tif"] + ["n", "n"], [t for t in FALSY if t[0] in "Fif"]
     elif flavour == "str":
         tpool, fpool = [t for t in TRUTHY if t[0] == "s"], [t for t in FALSY if t[0] in "sN"]
     else:
